@@ -68,7 +68,7 @@ def _build(ctx, data, cfg):
     np = ctx.np
     R, A, X = cfg["rows"], cfg["arity"], cfg.get("extra", 0)
     cyc = [1.0, 0.0, 2.0, 1.0, 0.1, 0.5]
-    cn = ["a", "b\u00fc", "", "a", "c", "b\u00fc"]
+    cn = ["a", "b\u00fc", "", "a ", "c\t", "b\u00fc"]  # ("a " and "a" are different names; white space is part of a name)
     if cfg["treat"] == "concrete":
         tn = [[cn[(r * A + c) % len(cn)] for c in range(A)] for r in range(R + X)]
         td = [[cyc[(r * A + c + 1) % len(cyc)] for c in range(A)] for r in range(R + X)]
@@ -81,12 +81,12 @@ def _build(ctx, data, cfg):
         else:
             td = [[ctx.real_bits("ds%d_%d" % (r, c)) for c in range(A)] for r in range(R + X)]
     if cfg["samples"] == "concrete":
-        sn = ["s%d" % (r % 3) for r in range(R + X)]
+        sn = ["s%d" % (r % 3) + (" " if r % 3 == 0 else "") for r in range(R + X)]
         sn[-1] = "zz\u00e9"
     else:
         sn = [ctx.str("sn%d" % r) for r in range(R + X)]
     if cfg["plates"] == "each":
-        pn = ["p%d" % (r % 3) for r in range(R + X)]
+        pn = ["p%d" % (r % 3) + ("\n" if r % 3 == 1 else "") for r in range(R + X)]
     elif cfg["plates"] == "one":
         p0 = ctx.str("pn0") if cfg["treat"] != "concrete" or cfg["samples"] != "concrete" else "p"
         pn = [p0] * (R + X)
